@@ -85,7 +85,7 @@ pub fn so_pull(s: &mut SoState, c: &[u8], ad: Option<&[u8]>) -> Result<(Vec<u8>,
     }
 }
 
-const MLENS: &[usize] = &[127, 128, 129, 1023];
+const MLENS: &[usize] = &[127, 128, 129, 255, 256, 257, 1023, 4079, 4095, 4096, 4097, 4112];
 fn pick_mlen(x: u64) -> usize {
     let n = 81 + MLENS.len() as u64;
     let i = x % n;
@@ -93,7 +93,7 @@ fn pick_mlen(x: u64) -> usize {
 }
 /// AD classes: None, empty, and lengths around the MAC block sizes.
 fn pick_ad(rng: &mut Rng, x: u64) -> Option<Vec<u8>> {
-    const ADL: &[i64] = &[-1, 0, 1, 15, 16, 17, 31, 32, 33, 64, 300];
+    const ADL: &[i64] = &[-1, 0, 1, 15, 16, 17, 31, 32, 33, 64, 300, 4096, 4097];
     let l = ADL[(x % ADL.len() as u64) as usize];
     if l < 0 { None } else { Some(rng.bytes(l as usize)) }
 }
